@@ -53,6 +53,9 @@ type Call struct {
 	DAG    [][]string `json:"dag,omitempty"`
 	Pool   bool       `json:"pool,omitempty"`
 	EM     int        `json:"em,omitempty"` // exec model for the SpecifiedEM pool methods
+	// Data is merged into the request's data map (pool) / added to the data context (engine).
+	// With "Req"/"Resp" keys the two-object form of ExecuteRulesWithSpecifiedEM is used.
+	Data map[string]interface{} `json:"-"`
 }
 
 func (c Call) IsSelected() bool {
@@ -127,7 +130,9 @@ type Outcome struct {
 
 // Invoke performs the call with a fresh log (holds already installed in lg).
 func (t *Target) Invoke(c Call, lg *Log) (out Outcome) {
-	t.Obs.Use(lg)
+	if t.Obs != nil {
+		t.Obs.Use(lg)
+	}
 	stag := &engine.Stag{}
 	out.Stag = stag
 	out.lg = lg
@@ -139,6 +144,9 @@ func (t *Target) Invoke(c Call, lg *Log) (out Outcome) {
 	}()
 	if t.Pool != nil {
 		data := map[string]interface{}{"stag": stag}
+		for dk, dv := range c.Data {
+			data[dk] = dv
+		}
 		var e error
 		var res map[string]interface{}
 		p := t.Pool
@@ -186,7 +194,11 @@ func (t *Target) Invoke(c Call, lg *Log) (out Outcome) {
 		case MDAG:
 			e, res = p.ExecuteDAGModel(c.DAG, data)
 		case MPoolEM:
-			e, res = p.ExecuteRulesWithSpecifiedEM("stag", stag, "", nil)
+			if req, ok := c.Data["Req"]; ok {
+				e, res = p.ExecuteRulesWithSpecifiedEM("Req", req, "Resp", c.Data["Resp"])
+			} else {
+				e, res = p.ExecuteRulesWithSpecifiedEM("stag", stag, "", nil)
+			}
 		case MPoolEMMulti:
 			e, res = p.ExecuteRulesWithMultiInputWithSpecifiedEM(data)
 		case MPoolEMSel:
@@ -200,6 +212,9 @@ func (t *Target) Invoke(c Call, lg *Log) (out Outcome) {
 		return
 	}
 	t.DC.Add("stag", stag)
+	for dk, dv := range c.Data {
+		t.DC.Add(dk, dv)
+	}
 	g, rb := t.Eng, t.RB
 	var e error
 	switch c.Method {
